@@ -98,6 +98,24 @@ def _fits(*ubs, extra=1):
     return max(ubs) + extra < cur().W - 2
 
 
+_SIMP = {}
+
+
+def _simp(t):
+    """z3.simplify, memoised on the identity of the (hash-consed) input term: the simplifier orders the arguments of commutative
+    operators by node id, so simplifying the same term twice can give two structurally different (equal-valued) results, and two
+    executions that build the same value would then need the solver to see it"""
+    k = t.get_id()
+    hit = _SIMP.get(k)
+    if hit is not None and hit[0].eq(t):
+        return hit[1]
+    r = z3.simplify(t)
+    if len(_SIMP) > 200000:
+        _SIMP.clear()
+    _SIMP[k] = (t, r)
+    return r
+
+
 def _mk_float(sign_term, exp, mag_term, ctx, ub=None):
     """build a Float without running __init__ (no forks): sign as SymInt 0/1, significand as SymInt
     (`ub`: static bound on the significand's bit length, used to discharge overflow obligations without the solver)"""
@@ -105,10 +123,10 @@ def _mk_float(sign_term, exp, mag_term, ctx, ub=None):
     from fpy2.number.number.flags import Flags
     W = cur().W
     r = object.__new__(RealFloat)
-    st = z3.simplify(z3.If(sign_term, z3.BitVecVal(1, W), z3.BitVecVal(0, W)))
+    st = _simp(z3.If(sign_term, z3.BitVecVal(1, W), z3.BitVecVal(0, W)))
     r._s = bool(st.as_long()) if z3.is_bv_value(st) else SymInt(st)
     r._exp = exp
-    mt = z3.simplify(mag_term)
+    mt = _simp(mag_term)
     r._c = mt.as_long() if z3.is_bv_value(mt) else SymInt(mt)
     if type(r._c) is SymInt and ub is not None:
         r._c.ub = ub
